@@ -2,6 +2,7 @@
 from __future__ import annotations
 
 import ast
+import re
 from typing import Any, Dict, List, Optional, Set, Tuple
 
 from ..core import AnalysisError, Report
@@ -151,7 +152,13 @@ def rule_unpack(rep: Report, repo: Repo) -> None:
                     for b in (0, 1, 2, 0x5A, 0xA5, 0xFF))
                 # a buffered source is advanced by exactly the byte just taken; an unbuffered source is ONE read bound once
                 adv_ok = (not buffered) or o.state.get(src) == f'{src}[1:]'
-                s_refill = bool(vals_ok) and adv_ok and o.effects == src_read and len(src_read) == (0 if buffered else 1)
+                if buffered:
+                    s_refill = bool(vals_ok) and adv_ok and not o.effects
+                else:
+                    # ONE read bound once; the source is that value or a pure expression of it (`_v1.encode(CODEC)`)
+                    bound = [e.split(' := ', 1)[0] for e in o.effects if ' := ' in e]
+                    used = set(re.findall(r'\b_v\d+\b', src or ''))
+                    s_refill = bool(vals_ok) and len(o.effects) == 1 and len(bound) == 1 and used == set(bound)
             others = [o for o in outs if o is not st and o not in refills]
             s_rest = all(o.result[0] == 'raise' and not o.state and all(' := ' in e for e in o.effects) and len(o.effects) <= 1
                          and f'0 == {cnt}' in o.conds for o in others)
@@ -160,11 +167,36 @@ def rule_unpack(rep: Report, repo: Repo) -> None:
         rep.check(ok, 'C17.UNPACK', f'{cls}.read_bit', why, site)
     for name, n in (('_queue_input_byte', 8), ('_queue_input_hex', 4)):
         fn = repo.func(KBD, f'KeyboardIO.{name}')
-        loop = [s for s in fn.body if isinstance(s, ast.For)]
-        ok = len(loop) == 1 and norm(loop[0].iter) == f'range({n})' and \
-            norm(loop[0].body[0]) in ('self._pending_input_bits.append(value >> i & 1 == 1)', 'self._pending_input_bits.append((value >> i) & 1 == 1)')
-        rep.check(ok, 'C17.UNPACK', f'KeyboardIO.{name}', norm(loop[0]).replace('\n', ' ')[:90] if loop else 'no loop',
-                  f'{KBD}:{fn.lineno}', expected=f'append((value >> i) & 1) for i in range({n})')
+        # the bits queued, in order, whichever way the sequence is written: an append loop, or extend() of a comprehension /
+        # generator; the element is folded on a grid of values and positions
+        seqs: List[Tuple[ast.expr, ast.expr, str]] = []
+        for x in ast.walk(fn):
+            if isinstance(x, ast.For) and isinstance(x.target, ast.Name) and len(x.body) == 1 and isinstance(x.body[0], ast.Expr) \
+                    and isinstance(x.body[0].value, ast.Call) and dotted(x.body[0].value.func) == 'self._pending_input_bits.append' \
+                    and len(x.body[0].value.args) == 1:
+                seqs.append((x.iter, x.body[0].value.args[0], x.target.id))
+            if isinstance(x, ast.Call) and dotted(x.func) == 'self._pending_input_bits.extend' and len(x.args) == 1 \
+                    and isinstance(x.args[0], (ast.ListComp, ast.GeneratorExp)) and len(x.args[0].generators) == 1 \
+                    and not x.args[0].generators[0].ifs and isinstance(x.args[0].generators[0].target, ast.Name):
+                g_ = x.args[0].generators[0]
+                seqs.append((g_.iter, x.args[0].elt, g_.target.id))
+        writes = [c for c in calls(fn) if dotted(c.func).startswith('self._pending_input_bits.')]
+        ok = len(seqs) == 1 and len(writes) == 1 and norm(seqs[0][0]) == f'range({n})'
+        txt = 'no single queueing sequence'
+        if ok:
+            it_, elt, var = seqs[0]
+            txt = f'{norm(elt)} for {var} in {norm(it_)}'
+            try:
+                for value in (0, 1, 0x5A, 0xA5, 0xFF, 0x80, 0x0F, 0x137):
+                    for i_ in range(n):
+                        if int(bool(eval_int_expr(elt, {'value': value, var: i_}))) != (value >> i_) & 1:
+                            ok = False
+            except AnalysisError:
+                ok = False
+            ok = ok and all(isinstance(eval_int_expr(elt, {'value': 5, var: 0}), (bool, int)) for _ in (0,))
+            # the queue holds booleans (the device contract): the element is a comparison / bool(), not the raw masked integer
+            ok = ok and isinstance(elt, (ast.Compare, ast.BoolOp)) or (ok and isinstance(elt, ast.Call) and dotted(elt.func) == 'bool')
+        rep.check(ok, 'C17.UNPACK', f'KeyboardIO.{name}', txt[:90], f'{KBD}:{fn.lineno}', expected=f'bit i of value, as a bool, for i in range({n}) (lsb first)')
 
 
 def rule_eof(rep: Report, repo: Repo) -> None:
